@@ -162,3 +162,36 @@ func TestC06(t *testing.T) {
 }
 
 func TestReplayC06(t *testing.T) { replayLoop(t, recC06(), "TestC06", "C06", false) }
+
+// C03 at scale: the complete target list of a shard travels in one request.
+func TestC03Big(t *testing.T) {
+	rec := recC03()
+	rapid.Check(t, func(t *rapid.T) {
+		c := GenBig(t)
+		if msg := runLoop(rec, "TestC03Big", c, "C03", false); msg != "" {
+			t.Fatalf("%s", msg)
+		}
+		rec.Class(fmt.Sprintf("big/targets=%d/label-bytes=%d", c.Bulk, c.LabelPad))
+	})
+}
+
+// C07 / C08 in the closed loop with real configuration hashes: sidecars in file mode, one of them with a
+// configuration that differs from the coordinator's in one setting.
+func recDrift(prop string) *vkit.Recorder {
+	r := vkit.Rec(prop, "exploration", "unit Test"+prop+"Loop: closed-loop runs (real coordinator, real sidecars in file mode: each reads a file with the coordinator's content plus per-shard external labels and refuses pushed configuration) in which one shard of the initial fleet runs a file that differs in one other setting (a scrape secret, a relabel regex, an interval), so that by the real configuration hashes it is never in sync; in every cycle of the run no scale request may be lower than that shard's position (C07) and it may not be sent a target update (C08); non-trivial = a run in which a scale change was requested while the drifted shard existed")
+	r.Assume(loopAssume)
+	return r
+}
+
+func driftTest(t *testing.T, prop string) {
+	rec := recDrift(prop)
+	rapid.Check(t, func(t *rapid.T) {
+		c := GenDrift(t)
+		if msg := runLoop(rec, "Test"+prop+"Loop", c, "C03", false); msg != "" {
+			t.Fatalf("%s", msg)
+		}
+	})
+}
+
+func TestC07Loop(t *testing.T) { driftTest(t, "C07") }
+func TestC08Loop(t *testing.T) { driftTest(t, "C08") }
